@@ -1,6 +1,7 @@
 package main
 
 import (
+	"fmt"
 	"go/token"
 	"go/types"
 	"strings"
@@ -210,6 +211,9 @@ func checkC04(c *Ctx) {
 
 	// (2c) a shared root stays reachable while it is re-keyed
 	checkRekeyOrder(c)
+	// (2d) per-node decisions of the orphan diff
+	c.rule("TABLE-orphan-walk", "orphan diff: skip / descend / report decisions on both trees", 4)
+	checkOrphanWalk(c, "TABLE-orphan-walk")
 
 	// (3)
 	var dvCall *ssa.Call
@@ -315,5 +319,117 @@ func checkSharedByHash(c *Ctx, rule string, fn *ssa.Function, olderIter func(v s
 	})
 	if n == 0 {
 		c.anchorMissing(rule, "no subtree-skipping Next(true) on the older tree in "+l.fname(fn))
+	}
+}
+
+// checkOrphanWalk (C04, C12): the per-node decisions of the orphan diff.
+//   newer tree:  a node with version <= prevVersion already existed in the
+//                older version ⇒ remember it as the next shared candidate and
+//                SKIP its subtree (Next(true)); a newer node ⇒ descend (Next(false));
+//   older tree:  a node is handed to the orphan callback exactly when it is not
+//                the shared candidate, and the walk then DESCENDS into it
+//                (Next(false)); a shared node is skipped with its subtree and
+//                the candidate is consumed.
+func checkOrphanWalk(c *Ctx, rule string) {
+	l := c.L
+	tow := l.Func("", "*nodeDB.traverseOrphansWithRootkeyCache")
+	fVer := l.Field("", "NodeKey", "version")
+	if tow == nil || fVer == nil || len(tow.Params) < 5 {
+		c.anchorMissing(rule, "traverseOrphansWithRootkeyCache / NodeKey.version")
+		return
+	}
+	isOlder := func(v ssa.Value) bool { return strings.Contains(roleOf(l, v, "", 0), ",arg1)#0") }
+	isNewer := func(v ssa.Value) bool { return strings.Contains(roleOf(l, v, "", 0), ",arg2)#0") }
+	boolConst := func(v ssa.Value) (bool, bool) {
+		k, ok := stripTrivial(v).(*ssa.Const)
+		if !ok || k.Value == nil {
+			return false, false
+		}
+		return k.Value.String() == "true", true
+	}
+	// guard: version of the newer tree's current node <= prevVersion
+	isCurVersion := func(v ssa.Value) bool {
+		v = stripTrivial(v)
+		if !isLoadOfField(fVer)(v) {
+			return false
+		}
+		return strings.Contains(roleOf(l, v, "", 0), ",arg2)#0") // …GetNode(NewNodeIterator(getRootKey(..,arg2))#0).nodeKey.version
+	}
+	isPrevVersion := func(v ssa.Value) bool { return roleOf(l, v, "", 0) == "arg1" }
+	old := findGuards(tow, cmpMatcher(token.LEQ, isCurVersion, isPrevVersion, false))
+	if len(old) == 0 {
+		c.bad(rule, "orphan walk: newer tree's node version is compared with the older version", l.pos(tow.Pos()), "no `node version <= prevVersion` decision on the newer tree's nodes")
+	}
+	nNew := 0
+	var fnCalls []ssa.Instruction
+	allInstrs(tow, func(in ssa.Instruction) {
+		cc := callCommon(in)
+		if cc == nil {
+			return
+		}
+		if p, ok := cc.Value.(*ssa.Parameter); ok && p == tow.Params[4] {
+			fnCalls = append(fnCalls, in)
+		}
+	})
+	allInstrs(tow, func(in ssa.Instruction) {
+		call, ok := in.(*ssa.Call)
+		if !ok {
+			return
+		}
+		f := staticCallee(&call.Call)
+		if f == nil || f.Name() != "Next" || len(call.Call.Args) != 2 {
+			return
+		}
+		skip, isK := boolConst(call.Call.Args[1])
+		switch {
+		case isNewer(call.Call.Args[0]):
+			nNew++
+			if !isK {
+				c.bad(rule, "orphan walk: newer tree advance", l.ipos(in), "skip flag is not a constant decided by the version test")
+				return
+			}
+			onOld := false
+			for _, g := range old {
+				if edgeDominates(g.iff.Block(), 1-g.pass, in.Block()) { // cmpMatcher(failWhenTrue=false): pass = edge where `<=` holds? see below
+					onOld = true
+				}
+			}
+			// cmpMatcher with failWhenTrue=false returns pass = the successor on which the comparison HOLDS
+			onHolds := false
+			for _, g := range old {
+				if edgeDominates(g.iff.Block(), g.pass, in.Block()) {
+					onHolds = true
+				}
+			}
+			_ = onOld
+			want := onHolds // skip the subtree exactly when the node already existed
+			c.decide(rule, fmt.Sprintf("orphan walk: newer tree Next(skip=%v)", skip), l.ipos(in), skip == want && (onHolds || onOld),
+				"subtree skipped iff the node's version <= prevVersion", "the newer tree's walk skips / descends on the wrong side of the `version <= prevVersion` test: shared subtrees are re-examined as new, or new subtrees are skipped and their older counterparts are taken for orphans")
+		case isOlder(call.Call.Args[0]):
+			if !isK {
+				return // decided by DOM-shared-by-hash
+			}
+			if skip {
+				// no orphan callback on a path that skips
+				bad := false
+				for _, fc := range fnCalls {
+					if instrDominates(fc, in) {
+						bad = true
+					}
+				}
+				c.decide(rule, "orphan walk: a shared node is not reported as an orphan", l.ipos(in), !bad, "skip edge carries no callback", "a node recognised as shared is also handed to the orphan callback")
+			} else {
+				passed := false
+				for _, fc := range fnCalls {
+					if instrDominates(fc, in) && okEdgeDominates(fc.(*ssa.Call), in) {
+						passed = true
+					}
+				}
+				c.decide(rule, "orphan walk: a node that is not shared is reported, then descended into", l.ipos(in), passed, "callback(pNode) succeeded before Next(false)", "the older tree's walk moves past a non-shared node without handing it to the orphan callback (or descends although the callback failed): unreachable nodes are never deleted")
+			}
+		}
+	})
+	if nNew < 2 {
+		c.anchorMissing(rule, "fewer than 2 advances of the newer tree's iterator")
 	}
 }
